@@ -19,6 +19,15 @@ import sys
 HERE = os.path.dirname(os.path.dirname(os.path.abspath(__file__)))
 
 
+def extract_needs(notes: str) -> str:
+  """The section of the sub-agent's notes that says what the change needs in order to manifest."""
+  m = re.search(r'^#+\s*[^\n]*(manifest|trigger|needs)[^\n]*\n(.*?)(?=^#+\s|\Z)', notes, re.S | re.M | re.I)
+  if m:
+    return ' '.join(m.group(2).split())[:1500]
+  paras = [p for p in notes.strip().split('\n\n') if p.strip()]
+  return ' '.join((paras[1] if len(paras) > 1 else paras[0] if paras else '').split())[:1500]
+
+
 def main():
   a = sys.argv[1:]
   pid, k, src, val = a[0], a[1], a[2], a[3]
@@ -50,7 +59,8 @@ def main():
   meta = {
       'property': pid,
       'origin': 'independent sub-agent given only the property text and a scratch worktree of /repo (nothing from /verif)',
-      'needs_to_manifest': needs or notes.strip().split('\n\n')[0][:1200],
+      'title': notes.strip().split('\n')[0].lstrip('# ').strip()[:200],
+      'needs_to_manifest': needs or extract_needs(notes),
       'validated_by_me': {
           'scratch_worktree': 'git -C /repo worktree add --detach /tmp/seedval-* HEAD; removed afterwards',
           'demo_on_clean_tree_exit': v.get('demo_clean'),
